@@ -37,6 +37,7 @@ type Property struct {
 	Assumptions []string // trusted base
 	Rules       []*Rule
 	Mutants     []Mutant
+	Benign      []Mutant // behaviour-preserving overlay edits: the rules must stay silent on each (ExpectRule/ExpectConstruct unused)
 	NeedSSA     bool
 	LevelText   string // MANIFEST level_claimed.text
 	LevelNote   string // MANIFEST level_note
